@@ -73,3 +73,13 @@ func verifTrace(ev string, a, b, c uint64) {
 		f(false, ev, a, b, c)
 	}
 }
+
+// verifTraceSelfCopy records that chunk c was copied from the self seed segment (its first
+// chunk's start offset is the source position).
+func verifTraceSelfCopy(c IndexChunk, segment SeedSegment) {
+	var src uint64
+	if fs, ok := segment.(*fileSeedSegment); ok && len(fs.chunks) > 0 {
+		src = fs.chunks[0].Start
+	}
+	verifTrace("a.selfcopy", c.Start, c.Size, src)
+}
